@@ -18,6 +18,7 @@ import (
 	"crypto"
 	"crypto/sha256"
 	"encoding/json"
+	"errors"
 	"fmt"
 	"io"
 	"net"
@@ -83,9 +84,23 @@ type c17Case struct {
 	Mutation string   `json:"mutation"` // label, not judged
 	// Sign, when set and Archive is empty, makes the judge perform the signing step itself (replay of sign-stage failures).
 	Sign *c17SignReq `json:"sign,omitempty"`
+	// FailedDigestBefore > 0: before every verification, provenance.Digest is run over that many bytes of unrelated
+	// data from a reader that then fails
+	FailedDigestBefore int `json:"failed_digest_before,omitempty"`
 }
 
-var c17AllEntries = []string{"signatory", "signatory-keyringfile", "verifychart", "action-verify", "locate-verify", "download-verify-always"}
+var c17AllEntries = []string{"signatory", "signatory-keyringfile", "signatory-holding-signing-key", "verifychart", "action-verify", "locate-verify", "download-verify-always"}
+
+// c17FailAfter is a reader that fails after its bytes (a read fault in the middle of hashing some other file).
+type c17FailAfter struct{ r io.Reader }
+
+func (f *c17FailAfter) Read(p []byte) (int, error) {
+	n, err := f.r.Read(p)
+	if err == io.EOF {
+		return n, errors.New("injected read fault")
+	}
+	return n, err
+}
 
 // ---------------------------------------------------------------------------------------------------------------
 // environment shared by the cases of one test function: keys, temp area, local chart server
@@ -293,9 +308,25 @@ func c17RunEntry(tb vt.TB, env *c17Env, entry, dir string, cs *c17Case) c17Outco
 	if err != nil {
 		tb.Fatalf("harness: keyring file: %v", err)
 	}
+	// what happened earlier in the process must not matter: a digest of some other data that failed half-way
+	if cs.FailedDigestBefore > 0 {
+		_, _ = provenance.Digest(&c17FailAfter{bytes.NewReader(cs.Archive[:min(cs.FailedDigestBefore, len(cs.Archive))])})
+	}
 	switch entry {
 	case "signatory":
 		s := &provenance.Signatory{KeyRing: env.keys.ringList(cs.Ring)}
+		return c17VerOutcome(s.Verify(path, path+".prov"))
+	case "signatory-holding-signing-key":
+		// a Signatory that also carries a signing key (as helm package --sign builds it): trust still comes from the
+		// keyring alone
+		key := c17KeyNames[0]
+		if len(cs.Signers) > 0 {
+			key = cs.Signers[0]
+		}
+		s, err := provenance.NewFromFiles(env.keys.secF[key], ringFile)
+		if err != nil {
+			return c17Outcome{Err: "keyring: " + err.Error()}
+		}
 		return c17VerOutcome(s.Verify(path, path+".prov"))
 	case "signatory-keyringfile":
 		s, err := provenance.NewFromKeyring(ringFile, "")
@@ -714,6 +745,7 @@ func c17Generate(t *rapid.T, env *c17Env) (g c17Gen, cut bool) {
 		return g, true
 	}
 	cs := c17Case{Name: name, Archive: archive, Prov: prov, Ring: ring, Signers: []string{key}, Entries: c17AllEntries, Mutation: mut}
+	cs.FailedDigestBefore = rapid.SampledFrom([]int{0, 0, 1, 64, 4096}).Draw(t, "failedDigestBefore")
 	param := ""
 	otherKey := func() string {
 		var o []string
